@@ -287,8 +287,12 @@ fn run_plan(plan: &Plan, facts: &mut Facts) -> Result<u64, String> {
         (okrun, got, LIVE_TASK.load(SeqCst))
     })
     .map_err(|m| format!("panicked: {m}"))?;
+    // `reset` must run exactly once per shutdown; when inside the inert window is not specified
+    let strip = |s: &String| -> String { if s.starts_with("V.reset@") { "V.reset".to_string() } else { s.clone() } };
+    let got: Vec<String> = got.iter().map(strip).collect();
     let gotset: BTreeSet<String> = got.iter().cloned().collect();
     let (req, opt) = expected(plan);
+    let req: BTreeSet<String> = req.iter().map(strip).collect();
     facts.tie = !opt.is_empty();
     facts.second_cycle = plan.s2.is_some();
     // a message arriving strictly inside an inert window
@@ -375,8 +379,13 @@ fn run_stage(at_stage: usize, restart: Option<u64>) -> Result<u64, String> {
         g
     })
     .map_err(|m| format!("panicked: {m}"))?;
+    // reset must run exactly once; at which instant of the inert window is not specified
+    let resets = got.iter().filter(|s| s.starts_with("S.reset@")).count();
+    if resets != 1 {
+        return Err(format!("shutdown requested in start stage {at_stage}: reset ran {resets} times: {got:?}"));
+    }
+    let got: Vec<String> = got.into_iter().filter(|s| !s.starts_with("S.reset@")).collect();
     let mut exp: Vec<String> = (0..=at_stage).map(|s| format!("S.start1:{s}@0")).collect();
-    exp.push("S.reset@0".into());
     if let Some(r) = restart {
         for s in 0..3 {
             exp.push(format!("S.start2:{s}@{r}"));
